@@ -22,21 +22,21 @@ type VModel struct {
 }
 
 type SpecEnv struct {
-	x       *Explorer
-	st      *State
-	vars    map[string]Val
-	oldVars map[string]Val
-	oldHeap map[string]*Term
-	frame   *Frame
-	con     *Contract
-	pkg     string
-	bound   map[string]*Term
-	iterHeap  map[string]*Term      // state at the start of the current loop iteration, for iter(e)
+	x         *Explorer
+	st        *State
+	vars      map[string]Val
+	oldVars   map[string]Val
+	oldHeap   map[string]*Term
+	frame     *Frame
+	con       *Contract
+	pkg       string
+	bound     map[string]*Term
+	iterHeap  map[string]*Term // state at the start of the current loop iteration, for iter(e)
 	iterCells map[*ssa.Alloc]Val
 	inIter    bool
-	goal    bool // evaluating something to be proved (skolemise positive foralls)
-	neg     bool // current polarity is negative
-	inOld   bool
+	goal      bool // evaluating something to be proved (skolemise positive foralls)
+	neg       bool // current polarity is negative
+	inOld     bool
 }
 
 func (x *Explorer) specEnv(st *State, f *Frame, con *Contract) *SpecEnv {
@@ -75,6 +75,48 @@ func (env *SpecEnv) evalBool(e *SExpr) *Term {
 		env.fail("%q is not a formula (%T)", e.Src, v)
 	}
 	return t.T
+}
+
+// tryBool evaluates a clause; a clause that no longer binds to the code (an identifier it names
+// is gone, a field was removed, ...) yields (nil, reason) instead of aborting the function.
+func (env *SpecEnv) tryBool(e *SExpr) (t *Term, unbound string) {
+	defer func() {
+		if r := recover(); r != nil {
+			if ee, ok := r.(engineError); ok && strings.HasPrefix(ee.msg, "spec: ") {
+				t, unbound = nil, ee.msg
+				return
+			}
+			panic(r)
+		}
+	}()
+	return env.evalBool(e), ""
+}
+
+// goalOf evaluates a clause that is to be proved; an unbound clause becomes a failed obligation.
+func (x *Explorer) goalOf(st *State, env *SpecEnv, cl *Clause, kind, site string) (*Term, bool) {
+	env.goal = true
+	g, why := env.tryBool(cl.Expr)
+	if g != nil {
+		return g, true
+	}
+	if !st.dry && !st.dead {
+		name := kind + "[" + cl.Label + "]"
+		if site != "" {
+			name += "@" + site
+		}
+		x.obls = append(x.obls, &Obligation{Func: x.fnKey, Name: name, Kind: kind, Label: cl.Label, Where: cl.Where, Goal: tFalse,
+			Trail: strings.Join(st.trail, ";"), Res: &SolveResult{Status: "unbound", Backend: "binder", Output: "the clause no longer binds to the code: " + why},
+			Query: "; " + why})
+	}
+	return nil, false
+}
+
+// assumeClause assumes a clause; an unbound clause is skipped (a weaker assumption is sound).
+func (x *Explorer) assumeClause(st *State, env *SpecEnv, cl *Clause) {
+	env.goal = false
+	if g, _ := env.tryBool(cl.Expr); g != nil {
+		st.assume(g)
+	}
 }
 
 func (env *SpecEnv) evalInt(e *SExpr) *Term {
